@@ -8,7 +8,7 @@ EXTENDS Gitignore
 \* `sub` is the directory that holds the nested ignore file.  In T1 and T2 the last entry of `sub` (in path
 \* order) is itself a directory and more entries follow `sub` in its parent, so that a walker that keeps a
 \* stack of ignore matchers has to pop several levels at once and then go on.
-T1Files == <<"!a", "#a", "*", "-x", ".h", "A", "a ", "b.c", "d.",
+T1Files == <<" #a", "!a", "#a", "*", "-x", ".h", "A", "a ", "b.c", "d.",
              "a/.h", "a/A", "a/a", "a/b.c/a", "a/b.c/b.c">>
 T2Files == <<"a", "*/a", "*/-x", "-x/a", ".h/a", "A/a", "A/b.c/a", "b.c/a", "b.c/b.c", "d./a", "d./d.">>
 T1 == [tree |-> "T1", sub |-> "a", files |-> T1Files]
@@ -24,13 +24,14 @@ Trees == {T1, T2, T3}
 \* line = prefix body suffix | special
 Prefixes == {"", "!", "/", "!/"}
 BLit   == {"a", "b.c", "A", "d.", "-x", "\\*", ".h"}
-BWild  == {"*", "?", "*.c", "*.", ".*", "b.?", "[ab]", "[!a]", "[a-c].c", "d[.]", "-*", "[^b-z]*"}
+BWild  == {"*", "?", "*.c", "*.", ".*", "b.?", "[ab]", "[!a]", "[a-c].c", "d[.]", "-*", "[^b-z]*", "[a-a]", "b.[c-c]"}
 BStar2 == {"**/a", "**/b.c", "a/**", "a/**/b.c", "**", "A/**", "**/A/*", "b**c", "**.c", "**a", "**c", "**/b.c/a", "**/a/a", "**/a/A", "**/b.c/b.c"}
 BSlash == {"a/a", "a/b.c", "a/*", "*/a", "*/b.c", "a/A", "A/b.c", "a/b.c/a", "a/*/b.c", "a/?", "d./a", "*/d."}
 Bodies == BLit \cup BWild \cup BStar2 \cup BSlash
 BlankBodies == {"a", "*", "a/a", "d."}
 BlankSuffixes == {" ", "\\ ", "  ", "\\  ", "/ ", " \\ ", "\t"}     \* (a tab is not a trailing space for git)
-Specials == {"#", "#a", "# a", "#!a", "\\#a", "\\!a", "!\\!a", "!\\#a", "\\!a/", "\\#a ", " ", "!", "a\\ /"}
+Specials == {"#", "#a", "# a", "#!a", "\\#a", "\\!a", "!\\!a", "!\\#a", "\\!a/", "\\#a ", " ", "!", "a\\ /",
+             " #a", "  #a", "! #a"}       \* only a `#` in column one starts a comment
 
 Compose(P, B, S) == {p \o b \o s : p \in P, b \in B, s \in S}
 SingleLines == Compose(Prefixes, Bodies, {"", "/"}) \cup Compose(Prefixes, BlankBodies, BlankSuffixes) \cup Specials
